@@ -5,7 +5,7 @@ import SkyllhModel.Model.PseudoData
 open Proto Store StoreIO Pseudo
 
 /-  stateful line protocol (state = heap-layer store with roles + plain tables in lock step):
-      reset | init <expcols> <mccols> | newMethod
+      reset | init <expcols> <mccols> | newMethod | uniformRA <lo> <hi> <deviates>   (floats as bit patterns)
       genFixed <sets> | genMC <keep> <presel> <draw> <sets> <expFields> | genSig <cols> | merge b s
       initTrial e <pre> <sel> <idx> <stat> | unblind <pre> <sel> <idx> <stat> | unblindAdopt … | evaluate
     <sel> = N | i:<ints> | m:<bools>;  <idx> = N | <name>:<perm>;  cols = name:dt:vals+…
@@ -74,6 +74,8 @@ def answer (st : DState) (line : String) : DState × String :=
     let g : G := ⟨runH ⟨[], []⟩ ops, ⟨0, 1, none, none⟩⟩
     let ts := runT [] ops
     (((g, ts), ([], 0)), s!"h=N cache=N events=N errs={countErrs ⟨[], []⟩ ops} | {dump g ts}")
+  | ["uniformRA", lo, hi, us] =>
+    (st, fListD fF ((pList pF us).map (fun u => (uniformRA (pF lo) (pF hi) u : Float))))
   | ["newMethod"] => ((({ st.1.1 with roles := { st.1.1.roles with cache := none } }, st.1.2), st.2), "ok")
   | cmd :: rest =>
     let tmp := cmd == "genSigTmp"
